@@ -4,7 +4,7 @@ NEI = [("graphql/schemabuilder", "C11 C18 C14 C01"), ("graphql/", "C01 C14 C15 C
        ("batch/", "C05 C01 C10"), ("concurrencylimiter/", "C20 C01"), ("diff/", "C03 C02"), ("merge/", "C03 C02"), ("client/", "C03 C02"),
        ("federation/", "C06 C09 C15"), ("sqlgen/", "C10 C12 C13 C07"), ("livesql/", "C07 C13"), ("internal/filter", "C11"), ("internal/", "C13 C10")]
 g = sys.argv[1]; out = []
-for d in sorted(glob.glob("/tmp/harm-%s-out/h*" % g)):
+for d in sorted(glob.glob("/tmp/harm%s-out/h*" % g)):
     meta = json.load(open(os.path.join(d, "meta.json")))
     props = meta["property"] if isinstance(meta["property"], list) else [meta["property"]]
     files = re.findall(r"^\+\+\+ b/(\S+)", open(os.path.join(d, "patch.diff")).read(), flags=re.M)
@@ -15,7 +15,7 @@ for d in sorted(glob.glob("/tmp/harm-%s-out/h*" % g)):
                 for p in ps.split():
                     if p not in allp: allp.append(p)
                 break
-    name = "H%s%s" % (g, os.path.basename(d)[1:])
+    name = "H%s%s" % (g.replace("-", ""), os.path.basename(d)[1:])
     dst = "/verif/harmless/" + name
     shutil.rmtree(dst, ignore_errors=True); shutil.copytree(d, dst)
     meta["touches"] = props; meta["property"] = allp; meta["files"] = files
